@@ -61,7 +61,7 @@ TOL_SCALE_GAUSS = 5e-3  # rescaling, noise-free sources (zero-residual fits) [4.
 
 def plan(tier):
     if tier == 'thorough':
-        return dict(shards=16, cases=6000, timeout=2400, budget_s=600)
+        return dict(shards=16, cases=12000, timeout=2400, budget_s=600)
     return dict(shards=8, cases=600, timeout=600, budget_s=70)
 
 
@@ -235,16 +235,17 @@ def _far(mag, error=None):
     """Magnitudes at which an iterative fit run on the raw values with ABSOLUTE termination tolerances and
     unscaled parameters is affected.  Two numbers matter: the magnitude of the data (amplitude parameter vs
     positions) and the magnitude of data/error (weighted residuals vs the absolute gradient tolerance).
-    Judged band (both inside [1e-3, 1e8]): measured noise-free deviations <= 5e-5 px.  Outside: centroid_1dg/2dg
-    return the initial guess, stall, wander off (hundreds of pixels) or raise - see the known finding."""
-    if not (1e-3 <= mag <= 1e8):
+    Judged band (both inside [1e-2, 1e6], where the onset of the effect is not yet visible): measured noise-free
+    deviations <= 5e-5 px.  Outside the effect grows gradually (2e-3 px at 1e-3 / 1e8) until centroid_1dg/2dg return
+    the initial guess, stall, wander off (up to 1e43 px measured) or raise - see the known finding."""
+    if not (1e-2 <= mag <= 1e6):
         return True
     if error is not None:
         e = np.asarray(error, float)
         e = e[np.isfinite(e) & (e > 0)]
         if e.size:
             eff = mag / float(np.median(e))
-            return not (1e-3 <= eff <= 1e8)
+            return not (1e-2 <= eff <= 1e6)
     return False
 
 
@@ -326,7 +327,12 @@ def _run_com_def(case):
     if not np.isfinite(cond):
         # zero total: the ratio is undefined and the documentation is silent; a number would be wrong.
         # (observed, not judged: the library then returns 2 NaNs whatever the dimension of the input)
-        case.check(bool(np.all(~np.isfinite(obs))), 'com_zero_total_not_a_number', mech, obs=obs)
+        exact_sum = np.asarray(data).dtype.kind in 'iu' or not np.any(np.where(
+            np.isfinite(np.asarray(data, float)) & (~mask if mask is not None else True), np.asarray(data, float), 0))
+        if exact_sum:
+            case.check(bool(np.all(~np.isfinite(obs))), 'com_zero_total_not_a_number', mech, obs=obs)
+        else:
+            case.note('com_zero_total_of_rounded_floats_not_judged')   # the library's rounded sum need not be 0
         if obs.shape != (len(shape),):
             case.note('com_zero_total_returns_2_values_for_ndim_not_2')
         return
